@@ -418,9 +418,17 @@ func (img image) draw(dst backend.Canvas, attrs *attributes, svg *SVGImage, dims
 			intrinsicWidth, intrinsicHeight = pr.Float(width), pr.Float(width)/intrinsicRatio.V()
 		}
 	} else if intrinsicWidth == nil {
-		intrinsicWidth = intrinsicRatio.V() * intrinsicHeight.V()
+		if intrinsicRatio == nil { // default object size
+			intrinsicWidth = pr.Float(300)
+		} else {
+			intrinsicWidth = intrinsicRatio.V() * intrinsicHeight.V()
+		}
 	} else if intrinsicHeight == nil {
-		intrinsicHeight = intrinsicWidth.V() / intrinsicRatio.V()
+		if intrinsicRatio == nil { // default object size
+			intrinsicHeight = pr.Float(150)
+		} else {
+			intrinsicHeight = intrinsicWidth.V() / intrinsicRatio.V()
+		}
 	}
 	intrinsic := Rectangle{0, 0, Fl(intrinsicWidth.V()), Fl(intrinsicHeight.V())}
 	if width == 0 {
